@@ -309,6 +309,28 @@ def run(ck, ctx):
                 continue
             ck.ob("R14.8", f"no (re)seeding or private generator inside the package [{q} in {enc}]", False,
                   (m.relpath, node.lineno, 0), enc, "", construct=f"{enc}: {q}")
+        # scheduler independence of the table: the worker-executed kernel shares no mutable state
+        runs = CG.calls("CphotAng.run")
+        if runs:
+            kstart = min((v.id for v in runs[0][2].values() if v.op == "IterElem"), default=0)
+            from .effects import root_kind
+            shared = []
+            for e in CG.effects:
+                if "CphotAng.run" not in e.funcs():
+                    continue
+                if e.kind == "attr-write" and e.node is not None and e.node.id < kstart:
+                    shared.append(e)
+                elif e.kind == "write" and any(root_kind(x, kstart) in ("input", "state", "global")
+                                               for x in e.data.get("roots", [])):
+                    shared.append(e)
+            for e in shared[:4]:
+                f = e.funcs()[-1]
+                ck.ob("R14.8", f"the shower kernel (executed by the scheduler's workers) writes no shared object "
+                      f"[{f} at {e.where()}]", False, e.node, f,
+                      f"{e.kind} {e.data.get('attr') or e.data.get('how')}: with a threaded scheduler concurrent "
+                      "showers would see each other's value", construct=f"{f}: {e.kind} on a shared object")
+            ck.ob("R14.8", "the table cannot depend on the scheduler through shared kernel state", not shared,
+                  CG.res.value, "CphotAng.run", f"{len(shared)} shared write(s)")
         worker = [e for e in CG.effects if e.kind == "rng" and "CphotAng.run" in e.funcs()]
         ck.ob("R14.8", "no random draw inside the worker-executed kernel closure", not worker, CG.res.value,
               "CphotAng.run", ", ".join(e.where() for e in worker[:3]))
